@@ -198,8 +198,12 @@ fn hyphenate_impl(hyphenater: &Hyphenator, list: &[ds::Horizontal]) -> Vec<ds::H
                 // Consume the node whose characters have just been placed in s (or the normal kern).
                 i += 1;
             };
-        // The first char node that triggered the word search will have been put in s.
-        assert!(!s.is_empty());
+        // Usually the node that triggered the word search has been put in s. Not so for a
+        // ligature that starts with a letter but also covers a non-letter (e.g. a ligature
+        // of "a-"): like TeX.2021.898/899 (hn=0) we then have no word to hyphenate.
+        if s.is_empty() {
+            continue;
+        }
 
         // Check if the word can be hyphenated based on the terminating node.
         // TeX.2021.899
